@@ -11,10 +11,17 @@ fn main() {
         // vh replay <result.json> [--raw]   (behaviours on stdin)
         Some("replay") => {
             let out = args.get(2).expect("result path");
-            let raw = args.iter().any(|a| a == "--raw");
+            let flag = |name: &str| args.iter().position(|a| a == name).and_then(|i| args.get(i + 1)).cloned();
+            let opts = replay::Opts {
+                raw: args.iter().any(|a| a == "--raw"),
+                clones: flag("--clones").map(|v| v.parse().unwrap()).unwrap_or(0),
+                seed: flag("--seed").map(|v| v.parse().unwrap()).unwrap_or(1),
+                tlc_log: flag("--tlc-log"),
+                vias: flag("--vias").map(|v| v.split(',').map(|s| s.to_string()).collect()).unwrap_or_default(),
+            };
             let stdin = std::io::stdin();
             let mut lock = stdin.lock();
-            replay::run_replay(&mut lock, out, raw)
+            replay::run_replay(&mut lock, out, &opts)
         }
         _ => {
             eprintln!("usage: vh replay <result.json> [--raw] < behaviours");
